@@ -221,6 +221,8 @@ def corpus():
         ("call-grow0-read", dict(str="x", init=[1, 2, 3], ops=[("cgrow", []), ("clen",), ("get", C("i32", 2)), ("cget", O("u8", 1)), ("get", C("i64", -3)), ("cset", O("i64", -1), 9),
                                                                 ("get", C("i32", 2)), ("cgrow", [7, 8, 9]), ("get", C("i8", 5)), ("set", C("i32", -6), 4), ("cget", O("i32", 0)), ("cget", O("i64", 6))])),
         ("call-set-wide", dict(str="x", init=[1, 2, 3], ops=[("print", 8), ("cset", O("i64", 2**32), 5), ("print", 9)])),
+        ("str-const-huge", dict(str="abc", init=[1], ops=[("print", 7), ("sget", C("i32", 2**31 - 1))])),
+        ("str-const-huge-i64", dict(str="", init=[1], ops=[("sget", C("i32", 0 - 1)), ("sget", C("i64", 2**31 - 2))])),
         ("static-reject", dict(str="x", init=[1, 2, 3], ops=[("print", 1), ("get", C("i32", 3))])),
         ("static-reject-neg", dict(str="x", init=[1, 2, 3], ops=[("set", C("i8", -4), 1)])),
         ("empty", dict(str="", init=[], ops=[("len",), ("sget", O("i32", 0))])),
@@ -276,7 +278,14 @@ def parse_lines(out):
 def observe(res):
     """-> dict(acc, lines, panic, abnormal)"""
     if not res["accepted"] or not res.get("exe_exists"):
-        return dict(acc=False, lines=[], panic=False, abnormal=None, diag=res["cout"] + res["cerr"])
+        diag = res["cout"] + res["cerr"]
+        ab = None
+        if "T0009" not in diag:
+            # not a compile-time index diagnostic: the back end / linker failed (or an unrelated error): the program that
+            # C08 says must run (and panic where it goes out of range) was not produced at all
+            errs = [ln.strip() for ln in diag.splitlines() if "error" in ln.lower() or "relocation" in ln or "panic" in ln.lower()]
+            ab = "build failed without an index-out-of-bounds diagnostic: " + " | ".join(errs[:3])[:300]
+        return dict(acc=False, lines=[], panic=False, abnormal=ab, diag=diag)
     lines = parse_lines(res["out"])
     pan = PANIC_MSG in res["err"] or "panic: index out of bounds" in res["err"]
     ab = None
@@ -289,6 +298,8 @@ def judge(p, ob):
     """the property itself, checked on the implementation's observation. Returns None or text."""
     sout, span = py_spec(p)
     if not ob["acc"]:
+        if ob["abnormal"]:
+            return ob["abnormal"]
         if not span:
             return "mis-rejected: every index of this history is valid for the current length, yet the compiler rejects it"
         return None
